@@ -11,6 +11,15 @@ DONE = {
   'implementation, extracted model and extracted spec are compared on every cell of the threshold arrangement and on random points.',
   'regenerated Gallina model + Coq theorems (lra cell decomposition) + differential check vs extracted model/spec',
   'CPython float semantics modelled as exact rationals of doubles (margin rule at rounding ties). Print Assumptions: closed under the global context.'),
+ 'C02': ('§5.C02',
+  'The coordinate formatter, the atom-name aligner and the sequence of format specifications of data2pdb are regenerated from the source '
+  'on every run; Coq proves for all rationals that a coordinate raises exactly outside (-1e7+0.5, 1e8-0.5) and otherwise occupies exactly 8 '
+  'columns with the decimals of the interval table and a rounding error of at most half a unit, and that every row fitting its field widths '
+  'is written as exactly 80 columns. Column placement (line_ok), the parse/export round trip, re-export and canonical-record reproduction '
+  'are decided on every run by the executable Coq specification applied to the implementation output (threshold windows, wide tables, bundled files).',
+  'regenerated Gallina model + Coq theorems (digit-length lemmas, lra cell decomposition) + executable Coq spec applied to implementation output',
+  'CPython str.format modelled in PyLib.v (fixed-point formatting correctly rounded on the exact binary value). PARTIAL: line_ok and round-trip '
+  'are checked by the executable spec and by implementation = model, not yet proved as theorems. Print Assumptions: closed under the global context.'),
  'C01': ('§5.C01',
   'Slice table, column types, record prefixes, blank-field defaults, 80-column guard, segID and element rules are regenerated from the '
   'source on every run; Coq proves for every printable record that the regenerated parser returns exactly the row (or error) of the wwPDB '
